@@ -129,6 +129,18 @@ LINTS = [
      "an undocumented format field is computed only if the (shared) scope does not have it yet"),
     ("source-mutated-in-clone-loop", lints.source_mutated_in_clone_loop, {"C08", "C14"},
      "the node that a loop clones is itself changed inside the loop"),
+    ("optional-truthiness", lambda repo, modules: lints.truthiness_of_optional(repo, modules), BEHAVIOURAL,
+     "a parsed field for which None and empty/zero differ (init, params, args) is tested for truthiness"),
+    ("copy-shares-state", lints.copy_shares_state, BEHAVIOURAL,
+     "a method that returns a new object made from self returns self, or shares self's dictionaries with it"),
+    ("shared-container", lints.shared_mutable_containers, {"C07"},
+     "a class-level container or a mutable default argument is changed through instances"),
+    ("scope-from-other-key", lints.scope_from_other_key, BEHAVIOURAL,
+     "a language's name-scope prefix is derived from another language's prefix of the parent"),
+    ("language-spelling", lints.language_spelling, BEHAVIOURAL,
+     "a language value is compared with \"c++\" after it was normalised to \"cxx\""),
+    ("write-only-key", lints.write_only_key, {"C01", "C04"},
+     "a key is stored in the one of attrs / metaattrs that nobody reads it from"),
     ("lost-reset", _lost_reset, BEHAVIOURAL,
      "per-iteration state (recorded in sa/periter.json) is no longer re-initialised inside its loop"),
 ]
@@ -145,6 +157,8 @@ def run_general(repo, run, R, pid, modules=MODULES):
         mine = []
         for mn, q, node, msg in found:
             props = properties_of(mn, q) & domain
+            if len(domain) == 1:
+                props = set(domain)      # the lint is about this property's subject wherever it fires
             if name == "lost-reset" and isinstance(node, ast.Assign):
                 props = PERITER_PROPS.get(("%s.%s" % (mn, q), node.targets[0].id), props)
             if name == "container-option":
@@ -182,6 +196,6 @@ def run_general(repo, run, R, pid, modules=MODULES):
 def attach(repo, run, pid):
     """called by the drivers after the property's own rules"""
     R = run.rule("%s.G1" % pid, "general lints over the functions this property is anchored in or was shown to depend on "
-                                "(sa/general.py: swapped call arguments, over-strict index guards, per-iteration state that lost its reset, container flags/options tested per child, record methods that skip a field, wrap flags read after being cleared, is_pointer() next to is_indirect())")
+                                "(sa/general.py: swapped call arguments, over-strict index guards, per-iteration state that lost its reset, container flags/options tested per child, record methods that skip a field, wrap flags read after being cleared, is_pointer() next to is_indirect(), truthiness of optional parsed fields, copies that share state, shared containers)")
     total, elsewhere = run_general(repo, run, R, pid)
     run.rules[R]["floor"] = "sites looked at: %d; findings attributed to other properties: %d" % (total, elsewhere)
